@@ -202,7 +202,7 @@ class POutputDispatcher(PDispatcher):
                             self.process.pid, data)
                     )
 
-    def record_output(self):
+    def record_output(self, eof=False):
         if self.capturelog is None:
             # shortcut trying to find capture data
             data = self.output_buffer
@@ -215,7 +215,7 @@ class POutputDispatcher(PDispatcher):
         else:
             token, tokenlen = self.begintoken_data
 
-        if len(self.output_buffer) <= tokenlen:
+        if len(self.output_buffer) <= tokenlen and not eof:
             return # not enough data
 
         data = self.output_buffer
@@ -226,7 +226,7 @@ class POutputDispatcher(PDispatcher):
         except ValueError:
             after = None
             index = find_prefix_at_end(data, token)
-            if index:
+            if index and not eof:
                 self.output_buffer = self.output_buffer + data[-index:]
                 data = data[:-index]
             self._log(data)
@@ -236,7 +236,7 @@ class POutputDispatcher(PDispatcher):
             self.output_buffer = after
 
         if after:
-            self.record_output()
+            self.record_output(eof)
 
     def toggle_capturemode(self):
         self.capturemode = not self.capturemode
@@ -273,7 +273,8 @@ class POutputDispatcher(PDispatcher):
     def handle_read_event(self):
         data = self.process.config.options.readfd(self.fd)
         self.output_buffer += data
-        self.record_output()
+        # at EOF no more data can complete a token: flush what was held back
+        self.record_output(eof=not data)
         if not data:
             # if we get no data back from the pipe, it means that the
             # child process has ended.  See
